@@ -1375,6 +1375,41 @@ def enumerate_to_index_form(loop: ast.For) -> bool:
     return True
 
 
+def dict_loop_to_comprehension(fi: FunctionInfo) -> int:
+    """`D = {}; for T in IT: D[K] = V` read as `D = {K: V for T in IT}` (in place) when the loop
+    follows the empty display directly, its body is that one store and K, V, IT do not read D."""
+    count = 0
+    for holder in ast.walk(fi.node):
+        for fld in ("body", "orelse", "finalbody"):
+            seq = getattr(holder, fld, None)
+            if not isinstance(seq, list):
+                continue
+            i = 0
+            while i + 1 < len(seq):
+                a, b = seq[i], seq[i + 1]
+                if (isinstance(a, ast.Assign) and len(a.targets) == 1 and isinstance(a.targets[0], ast.Name)
+                        and ((isinstance(a.value, ast.Dict) and not a.value.keys) or (isinstance(a.value, ast.Call) and src_of(a.value.func) == "dict" and not a.value.args and not a.value.keywords))
+                        and isinstance(b, ast.For) and not b.orelse and len(b.body) == 1 and isinstance(b.body[0], ast.Assign) and len(b.body[0].targets) == 1):
+                    D = a.targets[0].id
+                    t = b.body[0].targets[0]
+                    if isinstance(t, ast.Subscript) and isinstance(t.value, ast.Name) and t.value.id == D:
+                        reads = [n for e in (t.slice, b.body[0].value, b.iter) for n in ast.walk(e) if isinstance(n, ast.Name) and n.id == D]
+                        if not reads:
+                            comp = ast.DictComp(key=t.slice, value=b.body[0].value, generators=[ast.comprehension(target=b.target, iter=b.iter, ifs=[], is_async=0)])
+                            a.value = ast.copy_location(comp, a.value)
+                            ast.fix_missing_locations(a)
+                            del seq[i + 1]
+                            count += 1
+                            continue
+                i += 1
+    if count:
+        for node in ast.walk(fi.node):
+            for child in ast.iter_child_nodes(node):
+                child._parent = node  # type: ignore[attr-defined]
+        drop_caches(fi)
+    return count
+
+
 def drop_caches(fi: FunctionInfo) -> None:
     """forget what was computed about a function whose tree was just rewritten by a local
     normal form (reaching definitions, path conditions)"""
